@@ -122,6 +122,8 @@ pub struct UnwindContext<'a> {
     fde: FrameDescriptionEntry<EndianArcSlice, usize>,
     debugee: &'a Debugee,
     cfa: RelocatedAddress,
+    /// The CFI gives no rule for the return address of this frame: it is the outermost frame.
+    outermost: bool,
 }
 
 impl<'a> UnwindContext<'a> {
@@ -172,6 +174,12 @@ impl<'a> UnwindContext<'a> {
             Err(e) => return Err(e.into()),
         };
         let cfa = dwarf.evaluate_cfa(debugee, &registers_snap, row, ecx)?;
+        // ABI convention (`.cfi_undefined rip` in `_start` and `clone`): an undefined return
+        // address register means there is no caller to unwind to
+        let outermost = matches!(
+            row.register(fde.cie().return_address_register()),
+            None | Some(RegisterRule::Undefined)
+        );
 
         let mut lazy_evaluator = None;
         let evaluator_init_fn = || -> Result<ExpressionEvaluator, Error> {
@@ -252,6 +260,7 @@ impl<'a> UnwindContext<'a> {
             debugee,
             fde,
             cfa,
+            outermost,
         }))
     }
 
@@ -268,6 +277,9 @@ impl<'a> UnwindContext<'a> {
     }
 
     fn return_address(&self) -> Option<RelocatedAddress> {
+        if self.outermost {
+            return None;
+        }
         let register = self.fde.cie().return_address_register();
         self.registers
             .value(register)
